@@ -502,7 +502,7 @@ def _store(I, ctx, r, v):
     r.cell.v = I.set_path(ctx, r.cell.v, r.path, v)
 
 
-@M.on(r"^(std|alloc)::vec::Vec::(new|with_capacity|push|len|is_empty|pop|insert|remove|clear|truncate|extend_from_slice|dedup|retain|split_off|first|last|sort|contains|iter|as_slice|append|swap_remove|reserve|capacity|get|drain|as_mut_slice|into_boxed_slice|dedup_by_key|sort_by|sort_unstable|sort_by_key)$|^Vec::(new|with_capacity)$")
+@M.on(r"^(std|alloc)::vec::Vec::(new|with_capacity|push|len|is_empty|pop|insert|remove|clear|truncate|extend_from_slice|dedup|retain|split_off|first|last|sort|contains|iter|as_slice|append|swap_remove|reserve|capacity|get|drain|as_mut_slice|into_boxed_slice|dedup_by_key|sort_by|sort_unstable|sort_by_key)$|^Vec::(new|with_capacity|push|len|is_empty|pop|insert|remove|clear|truncate|extend_from_slice|dedup|retain|split_off|first|last|sort|contains|iter|as_slice|append|swap_remove|reserve|get|sort_by)$")
 def m_vec(I, ctx, callee, args, crate):
     meth = strip_generics(callee).split("::")[-1]
     if meth in ("new", "with_capacity"): return VecV([])
